@@ -57,16 +57,25 @@ def slice_(
 
     pipeline: list[Any] = []
 
-    if _stop >= 0:
-        pipeline.append(ops.take(_stop))
-
-    if _start > 0:
-        pipeline.append(ops.skip(_start))
-    elif _start < 0:
+    if _start < 0 and 0 < _stop < maxsize:
+        # A start relative to the end combined with a stop relative to the
+        # beginning: the absolute position of the last elements is only known
+        # once the source completes, so keep them together with their index.
+        pipeline.append(ops.map_indexed(lambda x, i: (i, x)))
         pipeline.append(ops.take_last(-_start))
+        pipeline.append(ops.filter(lambda ix: ix[0] < _stop))
+        pipeline.append(ops.map(lambda ix: ix[1]))
+    else:
+        if _stop >= 0:
+            pipeline.append(ops.take(_stop))
 
-    if _stop < 0:
-        pipeline.append(ops.skip_last(-_stop))
+        if _start > 0:
+            pipeline.append(ops.skip(_start))
+        elif _start < 0:
+            pipeline.append(ops.take_last(-_start))
+
+        if _stop < 0:
+            pipeline.append(ops.skip_last(-_stop))
 
     if _step > 1:
         pipeline.append(ops.filter_indexed(lambda x, i: i % _step == 0))
